@@ -173,6 +173,7 @@ class Unit:
         rewrites = []    # (old, new, all)
         desugars = {}    # loop ordinal -> iterator name (R11)
         endloops = {}    # loop ordinal -> ghost lines placed at the end of the loop body (R3)
+        innerspecs = {}  # nested fn name -> contract lines
         cur = None
         for l in block:
             s = l.strip()
@@ -185,6 +186,9 @@ class Unit:
                 mode, anchor = s[3:].split(' ', 1)
                 cur = []
                 inserts.append((mode, anchor.strip(), cur))
+            elif s.startswith('//@innerspec '):
+                # contract of a function nested in this function's body (spliced into the nested signature, R1)
+                cur = innerspecs.setdefault(s.split()[1], [])
             elif s.startswith('//@endloop '):
                 k = int(s.split()[1])
                 cur = endloops.setdefault(k, [])
@@ -236,7 +240,7 @@ class Unit:
         if kv.get('attr'):
             pre_attr += '#[%s]\n' % kv['attr'].replace('~', ' ')
         if mode == 'external_body':
-            loop_specs, inserts, desugars, endloops = {}, [], {}, {}      # body is dropped (R8)
+            loop_specs, inserts, desugars, endloops, innerspecs = {}, [], {}, {}, {}      # body is dropped (R8)
         # loops
         loops = src.loops(bopen, bclose)
         # R11: `for PAT in EXPR { BODY }` is spelled out as the language defines it (Rust reference,
@@ -272,6 +276,17 @@ class Unit:
             if k < 1 or k > len(loops):
                 raise Lost('fn %s: loop #%d not found (%d loops)' % (name, k, len(loops)))
             ins.append((loops[k - 1][1], '\n' + '\n'.join(spec_lines) + '\n', 'loop#%d' % k))
+        for iname, lines_ in innerspecs.items():
+            try:
+                inner = src.find_fn(iname, bopen, bclose)
+            except ScanError as e:
+                raise Lost('fn %s: nested fn %s not found' % (name, iname))
+            im = self._find_arrow(src, inner['sig_start'], inner['body_open'])
+            if im is not None:
+                ins.append((im[0], '(r: ', 'inner_ret_open'))
+                ins.append((im[1], ')', 'inner_ret_close'))
+            ins.append((inner['body_open'], '\n' + '\n'.join(lines_) + '\n', 'inner_sig'))
+            self.rewrites.append(dict(rule='R1', fn='%s::%s' % (name, iname), result='r'))
         for k, lines_ in endloops.items():
             if k < 1 or k > len(loops):
                 raise Lost('fn %s: loop #%d not found (%d loops)' % (name, k, len(loops)))
